@@ -3,7 +3,7 @@
 # Usage: scripts/seed_regression.sh [seed ...]   (default: all of /verif/seeded)
 cd /verif
 seeds="$@"
-[ -z "$seeds" ] && seeds=$(ls seeded)
+[ -z "$seeds" ] && seeds=$(ls -d seeded/*/ | xargs -n1 basename)
 for s in $seeds; do
   prop=${s%%-*}
   res=$(scripts/try_seed.sh /verif/seeded/$s/patch.diff $prop | head -1)
